@@ -58,12 +58,20 @@ HasParams(kind) == kind \in {"linear", "conv", "linsub", "bn", "colpar", "rowpar
 Supported(kind) == IF Variant = "gpt" THEN kind \in {"colpar", "rowpar"}
                    ELSE kind \in {"linear", "conv", "linsub"}
 
-\* qualified name as a sequence of characters (segments are single characters)
+\* characters of a child name (multi-character names make one sibling's name
+\* a string prefix of another's: "a" / "ab")
+SegChars(s) ==
+    CASE s = "ab" -> <<"a", "b">>
+      [] s = "aa" -> <<"a", "a">>
+      [] s = "ba" -> <<"b", "a">>
+      [] s = "a_b" -> <<"a", "_", "b">>
+      [] OTHER -> <<s>>
+\* qualified name as a sequence of characters
 RECURSIVE QName(_)
 QName(path) ==
     IF path = <<>> THEN <<>>
-    ELSE IF Len(path) = 1 THEN <<path[1]>>
-    ELSE <<path[1], ".">> \o QName(Tail(path))
+    ELSE IF Len(path) = 1 THEN SegChars(path[1])
+    ELSE SegChars(path[1]) \o <<".">> \o QName(Tail(path))
 
 (* regular expression search for the modelled family *)
 CharMatch(p, c) == p = "." \/ p = c
